@@ -1,17 +1,120 @@
 (* Property C12 — signed packets verify iff untampered; signer and parser cover the same bytes; parameters digest.
-   Only theorem statements closed by `exact`, each followed by Print Assumptions. *)
-From Packet Require Import Model Spec SigProofs.
+   Only theorem statements closed by `exact`, each followed by Print Assumptions.
+   Crypto primitives never appear as axioms: sha256 is an arbitrary 32-byte-valued function, `sign` an arbitrary function,
+   the validators' checks are arbitrary predicates `chk` accepting what the signing function produces. *)
+From Packet Require Import Model Spec ReadersProofs EncProofs DecGeneric DecProofs DecData DecInterest EncData EncInterest Roundtrip GenSigners SigProofs.
 Open Scope N_scope.
+Arguments ROk {A}.
 
-(* An Interest with parameters whose last name component is not the SHA-256 of the digest-covered bytes is rejected,
-   whatever the hash function is. *)
+(* The bytes handed to the signer are the bytes the parser returns as SigCovered — Data, every reader/segmentation. *)
+Theorem sig_covered_agree_data : forall sign nm cfg content sg si est e,
+  data_siginfo sg = Ok (si, est) -> name_ok nm -> meta_wf (meta_of cfg) -> signer_ok sg -> data_fits nm cfg content si est ->
+  make_data sign nm cfg content sg = Ok e ->
+  forall r, View r (concat (e_wire e)) 0 -> exists d cov, read_data r = ROk d cov /\ concat cov = concat (e_cov e).
+Proof. exact sig_covered_agree_data_thm. Qed.
+Print Assumptions sig_covered_agree_data.
+
+(* ... and Interest (signed: est > 0). *)
+Theorem sig_covered_agree_interest : forall (sha256 : bytes -> bytes), (forall x, length (sha256 x) = 32%nat) ->
+  forall sign nm cfg app sg si est e,
+  let need := match app with Some _ => true | None => false end in
+  let pre := strip_digest nm in
+  let nm1 := if need then pre ++ [mkc 2 zeros32] else pre in
+  int_siginfo sg need = Ok (si, est) -> 0 < est -> name_ok pre -> (app = None -> existsb is_digest_comp pre = false) ->
+  iconfig_ok cfg -> signer_ok sg -> signer_int_ok sg -> int_fits nm1 cfg app si est ->
+  make_interest sha256 sign nm cfg app sg = Ok e ->
+  forall r, View r (concat (e_wire e)) 0 -> exists i cov, read_interest sha256 r = ROk i cov /\ concat cov = concat (e_cov e).
+Proof. exact sig_covered_agree_int_thm. Qed.
+Print Assumptions sig_covered_agree_interest.
+
+(* An Interest with parameters always carries the correct parameters digest as its last name component: the SHA-256 of
+   the region prescribed by the packet format, located on the encoded bytes by the independent Spec.params_digest_region. *)
+Theorem digest_is_last_component : forall (sha256 : bytes -> bytes), (forall x, length (sha256 x) = 32%nat) ->
+  forall sign nm cfg a sg si est e,
+  let pre := strip_digest nm in
+  int_siginfo sg true = Ok (si, est) -> name_ok pre -> iconfig_ok cfg -> signer_ok sg -> signer_int_ok sg ->
+  int_fits (pre ++ [mkc 2 zeros32]) cfg (Some a) si est ->
+  make_interest sha256 sign nm cfg (Some a) sg = Ok e ->
+  exists region, params_digest_region (concat (e_wire e)) = Some region /\ e_final e = pre ++ [mkc 2 (sha256 region)].
+Proof. exact digest_is_last_component_thm. Qed.
+Print Assumptions digest_is_last_component.
+
+(* ... and an Interest whose last component is not that digest is rejected on decode, whatever the hash function. *)
 Theorem bad_digest_rejected : forall (sha256 : bytes -> bytes) i cx nm c a,
   i_name i = Some (nm ++ [c]) -> i_app i = Some a ->
   cval c <> sha256 (concat (ix_dcov cx)) -> check_interest sha256 i cx = false.
 Proof. exact check_interest_bad_digest. Qed.
 Print Assumptions bad_digest_rejected.
 
+(* The table of shipped signers is re-generated from std/security on every run (GenSigners.v); every signer announces the
+   signature type its validator insists on. *)
+Theorem shipped_signer_types_match : forallb (fun r => (sf_type r =? sf_vtype r)%Z) shipped_signers = true.
+Proof. exact shipped_types_match. Qed.
+Print Assumptions shipped_signer_types_match.
+
+(* For every shipped signer type the matching validator accepts an untampered Data ... *)
+Theorem shipped_signers_validate_data : forall row, In row shipped_signers ->
+  forall (chk : bytes -> bytes -> bool) (sgn : bytes -> bytes), (forall msg, chk msg (sgn msg) = true) ->
+  forall nm cfg content sg s si est e,
+    sig_active sg = Some s -> sg_type s = sf_type row -> (0 <= sg_type s < two64z)%Z -> 0 < est ->
+    data_siginfo sg = Ok (si, est) -> name_ok nm -> meta_wf (meta_of cfg) -> signer_ok sg -> data_fits nm cfg content si est ->
+    make_data (fun cov => Some (sgn (concat cov))) nm cfg content sg = Ok e ->
+    forall r, View r (concat (e_wire e)) 0 ->
+      exists d cov sv, read_data r = ROk d cov /\ do_sv (obs_data d) = Some sv /\
+        ((sig_type_of (do_si (obs_data d)) =? sf_vtype row)%Z && chk (concat cov) sv)%bool = true.
+Proof. exact shipped_data_validates. Qed.
+Print Assumptions shipped_signers_validate_data.
+
+(* ... and an untampered signed Interest. *)
+Theorem shipped_signers_validate_interest : forall (sha256 : bytes -> bytes), (forall x, length (sha256 x) = 32%nat) ->
+  forall row, In row shipped_signers ->
+  forall (chk : bytes -> bytes -> bool) (sgn : bytes -> bytes), (forall msg, chk msg (sgn msg) = true) ->
+  forall nm cfg a sg s si est e,
+    sig_active sg = Some s -> sg_type s = sf_type row -> (0 <= sg_type s < two64z)%Z -> 0 < est ->
+    int_siginfo sg true = Ok (si, est) -> name_ok (strip_digest nm) -> iconfig_ok cfg -> signer_ok sg -> signer_int_ok sg ->
+    int_fits (strip_digest nm ++ [mkc 2 zeros32]) cfg (Some a) si est ->
+    make_interest sha256 (fun cov => Some (sgn (concat cov))) nm cfg (Some a) sg = Ok e ->
+    forall r, View r (concat (e_wire e)) 0 ->
+      exists i cov sv, read_interest sha256 r = ROk i cov /\ io_sv (obs_int i) = Some sv /\
+        ((sig_type_of (io_si (obs_int i)) =? sf_vtype row)%Z && chk (concat cov) sv)%bool = true.
+Proof. exact shipped_interest_validates. Qed.
+Print Assumptions shipped_signers_validate_interest.
+
+(* Tampering, proved part.  Full statement of the property: flipping ANY single bit of the encoded packet inside the
+   signed portion, the signature value or an Interest's parameters makes decoding fail or the validator reject.
+   Proved here: every modification that leaves a well-formed Data with different name / MetaInfo / content / SignatureInfo /
+   signature value — in particular a flipped bit inside a VALUE octet of the signed portion or of the signature — is decoded
+   to a (covered bytes, signature value) pair different from the signed one, so that acceptance would need a second
+   preimage / forgery of the primitive (outside the model).
+   NOT proved (tamper_header_bit_partial): flips that hit a type or length octet and re-shape the TLV tree; they are covered
+   only by the harness's exhaustive single-bit sweep of every generated short packet against the real validators — a test. *)
+Theorem tamper_value_byte_detected : forall n m c si sv n' m' c' si' sv',
+  name_ok n -> meta_wf m -> opt_si_wf si -> name_ok n' -> meta_wf m' -> opt_si_wf si' ->
+  (blen (enc_elems (data_pre n m c si)) + 10 < 9223372036854775808) ->
+  (n, m, c, si, sv) <> (n', m', c', si', sv') ->
+  forall r, View r (enc_elem (6, enc_elems (data_elems n' m' c' si' (Some sv')))) 0 ->
+    (N.of_nat (length (enc_elem (6, enc_elems (data_elems n' m' c' si' (Some sv'))))) < 9223372036854775808)%N ->
+    exists d' cov', read_data r = ROk d' cov' /\
+      (concat cov' <> enc_elems (data_pre n m c si) \/ do_sv (obs_data d') <> Some sv).
+Proof. exact data_tamper_changes_validator_input. Qed.
+Print Assumptions tamper_value_byte_detected.
+
+(* the same for an Interest's parameters region: different parameters / SignatureInfo / signature value give a different
+   digest input, so the parameters-digest check compares against the hash of different bytes *)
+Theorem tamper_params_changes_digest_input : forall c si sv c' si' sv', opt_si_wf si -> opt_si_wf si' ->
+  (blen (enc_elems (int_tail_elems (Some c) si sv)) + 100 < 9223372036854775808) ->
+  enc_elems (int_tail_elems (Some c) si sv) = enc_elems (int_tail_elems (Some c') si' sv') -> (c, si, sv) = (c', si', sv').
+Proof. exact int_tail_inj. Qed.
+Print Assumptions tamper_params_changes_digest_input.
+
+(* non-vacuity: an HMAC-typed (4) signed Interest with parameters; the digest component is the hash of the region and
+   a model validator with chk = equality accepts *)
 Example c12_example :
-  check_interest (fun _ => repeat 7 32) (mkInt (Some [mkc 8 [97]; mkc 2 (repeat 7 32)]) false false None None None None (Some [[1;2]]) None None)
-                 (mkIctx [] [[36;2;1;2]] 0 0 0) = true.
-Proof. vm_compute. reflexivity. Qed.
+  let sha := fun b : bytes => firstn 32 (b ++ repeat 9 32) in
+  let sg := Some (mkSigner 4 (Some [mkc 8 [107]]) (Some [1;2]) (Some 1700000000000%Z) (Some 7) None None 32) in
+  match make_interest sha (fun cov => Some (sha (concat cov))) [mkc 8 [97]] (mkIC true false None (Some 5) (Some 4000000000%Z) None) (Some [[1]; [2;3]]) sg with
+  | Ok e => match read_interest sha (new_wire_reader [firstn 2 (concat (e_wire e)); skipn 2 (concat (e_wire e))]) with
+            | ROk i cov => io_sv (obs_int i) = Some (sha (concat cov)) /\ params_digest_region (concat (e_wire e)) <> None
+            | _ => False end
+  | _ => False end.
+Proof. vm_compute. split; [reflexivity|discriminate]. Qed.
